@@ -1,14 +1,14 @@
 """Helper of props/C39.py (not a property): the table-driven differential corpus.
 
-Four generated modules, built once per configuration cell:
+Five generated modules, built once per configuration cell:
 
   c39cv / c39cmp / c39ar   sources and operand pools of the properties that OWN the helpers whose bodies are
           selected by configuration macros: C05 (TypeConversion.c int conversions), C19 (Optimize.c
           PyObjectCompare: int-int digit classes, float-int / int-float), C02 (Optimize.c PyLongBinop /
           PyFloatBinop / PyLongCompare with constants)
-  c39x    tiny typed functions for the other macro-guarded utility regions (unicode kinds, bytes, list /
-          tuple / dict / set internals, calls, type slots, exceptions, generators, int builtins, formatting,
-          pattern matching, argument binding)
+  c39x / c39y   tiny typed functions for the other macro-guarded utility regions (c39x: unicode kinds, bytes,
+          list / tuple / dict / set internals, int builtins, formatting; c39y: calls, type slots, exceptions,
+          generators / coroutines, pattern matching, argument binding)
 
 A function is listed with the operand tables it is run over ("#@ A B" = product of tables A and B,
 "#@ zip A B" = pairwise); the worker calls it on freshly created operands and records type + repr of the
@@ -59,6 +59,7 @@ import sys, collections, functools, operator
 class Idx:
     def __init__(self, v): self.v = v
     def __index__(self): return self.v
+    def __repr__(self): return "Idx(%r)" % (self.v,)
 class L2(list): pass
 class T2(tuple): pass
 class D2(dict): pass
@@ -103,6 +104,7 @@ class NoOps:
 class It:
     """iterator protocol only"""
     def __init__(self, n, fail=None): self.i = 0; self.n = n; self.fail = fail
+    def __repr__(self): return "It(%r, %r)" % (self.n, self.fail)
     def __iter__(self): return self
     def __next__(self):
         if self.fail is not None and self.i == self.fail: raise KeyError("it")
@@ -119,6 +121,7 @@ class Ctx:
         self.log.append(("exit", None if t is None else t.__name__))
         return self.swallow
 class Callee:
+    def __repr__(self): return "Callee()"
     def __call__(self, *a, **k): return ("call", a, sorted(k.items()))
     def meth(self, *a, **k): return ("meth", a, sorted(k.items()))
     @classmethod
@@ -134,6 +137,7 @@ def raiser(*a, **k): raise LookupError("raiser")
 class Pt:
     __match_args__ = ("x", "y")
     def __init__(self, x, y): self.x = x; self.y = y
+    def __repr__(self): return "Pt(%r, %r)" % (self.x, self.y)
 class E1(Exception): pass
 class E2(E1): pass
 class E3(KeyError, E1): pass
@@ -186,7 +190,7 @@ if spec.get("python_source"):
 else:
     mods = {name: __import__(name) for name in spec["modules"]}
 for mname, mm in mods.items():
-    if mname == "c39x":
+    if mname == "c39y":
         # operand expressions must build instances of the classes the module itself matches against
         ns.update({k: v for k, v in vars(mm).items() if not k.startswith("__")})
 for mname, mm in mods.items():
@@ -207,6 +211,7 @@ def dec(v):
     if k == "l": return [dec(y) for y in x]
     if k == "t": return tuple(dec(y) for y in x)
     if k == "py": return eval(x, ns)
+    if k == "obj": return x
     raise ValueError(k)
 
 def enc(r, depth=0):
@@ -228,7 +233,7 @@ def enc(r, depth=0):
 
 def call(f, args):
     try:
-        return enc(f(*args))
+        return enc(f(*[dec(x) for x in args]))
     except BaseException as e:
         return "!" + type(e).__name__
 
@@ -244,19 +249,22 @@ for mname, fname, mode, tnames in spec["calls"]:
     ts = [tables[t] for t in tnames]
     if mode == "zip":
         for row in zip(*ts):
-            res.append(call(f, [dec(x) for x in row]))
+            res.append(call(f, row))
     elif mode == "same":
         # rows [a, b, same]: one object passed twice when same is set
         for a, b, same in ts[0]:
-            x = dec(a)
-            res.append(call(f, [x, x if same else dec(b)]))
+            if same:
+                x = dec(a)
+                res.append(call(f, [{"obj": x}, {"obj": x}]))
+            else:
+                res.append(call(f, [a, b]))
     elif mode == "rows":
         for row in ts[0]:
-            res.append(call(f, [dec(x) for x in row]))
+            res.append(call(f, row))
     else:
         def rec(i, acc):
             if i == len(ts):
-                res.append(call(f, [dec(x) for x in acc])); return
+                res.append(call(f, acc)); return
             for x in ts[i]:
                 rec(i + 1, acc + [x])
         rec(0, [])
@@ -272,7 +280,7 @@ print(json.dumps({"done": len(spec["calls"])}))
 XSRC_HEAD = r'''# cython: language_level=3
 import cython
 '''
-XSRC_BODY = r'''
+XSRC_BODY_A = r'''
 
 # ---- unicode: CYTHON_USE_UNICODE_INTERNALS / ASSUME_SAFE_MACROS / ASSUME_SAFE_SIZE / Limited API
 #@ S I
@@ -324,6 +332,13 @@ def u_decode_roundtrip(str s):
     cdef bytes b = s.encode("utf-8")
     cdef char* p = b
     return b.decode("utf-8"), p[:len(b)].decode("utf-8"), b[1:].decode("utf-8", "replace"), b[:-1].decode("utf-8", "ignore"), (<bytes>b).decode("latin-1"), b.decode("utf-8")[1:]
+
+#@ NUMS
+def u_float(str s): return float(s), float(s.strip() or "0")
+#@ NUMS
+def u_float_obj(s): return float(s), int(s) if len(s) < 30 else None
+#@ NUMS
+def u_int(str s): return int(s), int(s, 0) if s[:1] in "0123456789+- " else None, int(s.replace(".", ""), 16) if len(s) < 20 else None
 
 # ---- bytes / bytearray
 #@ B I
@@ -540,45 +555,7 @@ def s_ops(list l, k):
     t = frozenset(l)
     return r, sorted(map(repr, s)), len(t), sorted(map(repr, s | t)), sorted(map(repr, s & t)), [x for x in t] == list(t), s == t, s <= t, {x for x in l} == t
 
-# ---- calls: CYTHON_FAST_PYCALL / VECTORCALL / METH_FASTCALL / UNPACK_METHODS
-#@ F
-def c_call(f):
-    r = []
-    for g in (lambda: f(), lambda: f(1), lambda: f(1, 2), lambda: f(1, 2, 3), lambda: f(1, b=5), lambda: f(a=1), lambda: f(*(1, 2)),
-              lambda: f(*[1], **{"b": 3}), lambda: f(1, 2, 3, 4, d=5, e=6), lambda: f(**{"a": 1, "d": 9}), lambda: f(1, *(), **{}),
-              lambda: f(1, **{"a": 2}), lambda: f(*None), lambda: f(**{1: 2})):
-        try:
-            r.append(g())
-        except Exception as e:
-            r.append(type(e).__name__)
-    return r
-#@ O
-def c_method(o):
-    r = []
-    for g in (lambda: o.meth(), lambda: o.meth(1), lambda: o.meth(1, 2), lambda: o.meth(1, k=2), lambda: o.cm(1), lambda: o.sm(1, 2),
-              lambda: o.attr, lambda: o.missing, lambda: o.missing(), lambda: getattr(o, "attr", "d"), lambda: getattr(o, "nope", "d"),
-              lambda: getattr(o, "nope"), lambda: hasattr(o, "meth"), lambda: hasattr(o, "nope"), lambda: o(1, x=2), lambda: o(),
-              lambda: type(o).__name__, lambda: o.__class__.__name__, lambda: callable(o), lambda: o.append(1), lambda: o.upper(),
-              lambda: o.keys(), lambda: o.bit_length(), lambda: o.real, lambda: o.__len__()):
-        try:
-            r.append(g())
-        except Exception as e:
-            r.append(type(e).__name__)
-    return r
-#@ O
-def c_setattr(o):
-    r = []
-    try:
-        o.newattr = 5
-        r.append(o.newattr)
-        setattr(o, "other", 6)
-        r.append(o.other)
-        del o.newattr
-        r.append(hasattr(o, "newattr"))
-        del o.newattr
-    except Exception as e:
-        r.append(type(e).__name__)
-    return r
+# ---- int builtins
 #@ N
 def c_builtin_calls(x):
     r = []
@@ -652,6 +629,48 @@ def n_cuint_fmt(unsigned long a): return f"{a}", f"{a:20d}", f"{a:X}", str(a)
 #@ FL
 def n_cdouble_fmt(double d): return f"{d}", f"{d:.3f}", f"{d:10.2e}", str(d), repr(d), "%g" % d, f"{d!r}", d == d, d < 0, <object>d
 
+'''
+
+XSRC_BODY_B = r'''
+# ---- calls: CYTHON_FAST_PYCALL / VECTORCALL / METH_FASTCALL / UNPACK_METHODS
+#@ F
+def c_call(f):
+    r = []
+    for g in (lambda: f(), lambda: f(1), lambda: f(1, 2), lambda: f(1, 2, 3), lambda: f(1, b=5), lambda: f(a=1), lambda: f(*(1, 2)),
+              lambda: f(*[1], **{"b": 3}), lambda: f(1, 2, 3, 4, d=5, e=6), lambda: f(**{"a": 1, "d": 9}), lambda: f(1, *(), **{}),
+              lambda: f(1, **{"a": 2}), lambda: f(*None), lambda: f(**{1: 2})):
+        try:
+            r.append(g())
+        except Exception as e:
+            r.append(type(e).__name__)
+    return r
+#@ O
+def c_method(o):
+    r = []
+    for g in (lambda: o.meth(), lambda: o.meth(1), lambda: o.meth(1, 2), lambda: o.meth(1, k=2), lambda: o.cm(1), lambda: o.sm(1, 2),
+              lambda: o.attr, lambda: o.missing, lambda: o.missing(), lambda: getattr(o, "attr", "d"), lambda: getattr(o, "nope", "d"),
+              lambda: getattr(o, "nope"), lambda: hasattr(o, "meth"), lambda: hasattr(o, "nope"), lambda: o(1, x=2), lambda: o(),
+              lambda: type(o).__name__, lambda: o.__class__.__name__, lambda: callable(o), lambda: o.append(1), lambda: o.upper(),
+              lambda: o.keys(), lambda: o.bit_length(), lambda: o.real, lambda: o.__len__()):
+        try:
+            r.append(g())
+        except Exception as e:
+            r.append(type(e).__name__)
+    return r
+#@ O
+def c_setattr(o):
+    r = []
+    try:
+        o.newattr = 5
+        r.append(o.newattr)
+        setattr(o, "other", 6)
+        r.append(o.other)
+        del o.newattr
+        r.append(hasattr(o, "newattr"))
+        del o.newattr
+    except Exception as e:
+        r.append(type(e).__name__)
+    return r
 # ---- type slots: CYTHON_USE_TYPE_SLOTS / TYPE_SPECS / LookupSpecial / iteration
 #@ OO OO
 def o_binops(a, b):
@@ -1115,22 +1134,24 @@ def _expand(src):
     return pat.sub(rep, src)
 
 
-XSRC = XSRC_HEAD + SUPPORT + _expand(XSRC_BODY)
+XSRC = XSRC_HEAD + _expand(XSRC_BODY_A)                  # c39x: strings, bytes, containers, ints, formatting
+YSRC = XSRC_HEAD + SUPPORT + _expand(XSRC_BODY_B)        # c39y: calls, type slots, exceptions, generators, matching, binding
 
 
 def x_functions():
-    """-> [(function name, mode, [table names])] parsed from the #@ lines of XSRC"""
+    """-> [(module, function name, mode, [table names])] parsed from the #@ lines of XSRC / YSRC"""
     out = []
-    for m in re.finditer(r"^#@ (.*)\n(?:@.*\n)*def (\w+)\(", XSRC, re.M):
-        spec, name = m.group(1).split(), m.group(2)
-        if spec[0] == "zip":
-            out.append((name, "zip", spec[1:]))
-        elif spec[0].startswith("rows:"):
-            out.append((name, "rows", [spec[0][5:]]))
-        elif len(spec) == 1 and spec[0] in X_ROWS:
-            out.append((name, "rows", spec))
-        else:
-            out.append((name, "product", spec))
+    for mod, src in (("c39x", XSRC), ("c39y", YSRC)):
+        for m in re.finditer(r"^#@ (.*)\n(?:@.*\n)*def (\w+)\(", src, re.M):
+            spec, name = m.group(1).split(), m.group(2)
+            if spec[0] == "zip":
+                out.append((mod, name, "zip", spec[1:]))
+            elif spec[0].startswith("rows:"):
+                out.append((mod, name, "rows", [spec[0][5:]]))
+            elif len(spec) == 1 and spec[0] in X_ROWS:
+                out.append((mod, name, "rows", spec))
+            else:
+                out.append((mod, name, "product", spec))
     return out
 
 
@@ -1142,21 +1163,21 @@ def x_tables(rng, quick):
     B = [b"", b"a", b"b", b"ab", b"abc", b"abd", b"ab\x00", b"\x00", b"\xff\xfe", b"abcabc", b"a" * 40]
     L = [[], [1], [1, 2], [1, 2, 3], ["a", None, 2.5, (1,)], list(range(10)), [[1], [2]]]
     LO = [[1, 2, 3], (1, 2, 3), "abc", b"abc", Py("L2([1, 2, 3])"), Py("T2((1, 2, 3))"), Py("Seq(1, 2, 3)"), Py("bytearray(b'abc')"),
-          Py("{0: 'z', 1: 'o', -1: 'm'}"), Py("DM({1: 2})"), Py("range(3)"), Py("c39x.Ext(7)"), None, 5, Py("collections.deque([1, 2, 3])")]
+          Py("{0: 'z', 1: 'o', -1: 'm'}"), Py("DM({1: 2})"), Py("range(3)"), Py("Seq()"), None, 5, Py("collections.deque([1, 2, 3])")]
     IO = [0, 1, 2, 3, -1, -3, -4, 2 ** 63 - 1, 2 ** 63, -2 ** 63, -2 ** 63 - 1, 2 ** 100, True, Py("Idx(1)"), Py("Idx(-1)"), Py("Idx(2**70)"), 1.0, "1", None,
           Py("slice(1, None)"), Py("slice(None, None, -1)")]
     D = [Py("{}"), Py("{1: 'one'}"), Py("{1: 'one', 'k': None, (1, 2): 3}"), Py("{None: 0, 1.0: 'f', 2: 'i'}"), Py("{i: i * i for i in range(20)}")]
     DO = D + [Py("D2({1: 2})"), Py("DM({1: 2})"), Py("collections.OrderedDict([(1, 2)])"), Py("collections.defaultdict(list, {1: 2})"), None, [1, 2]]
     K = [1, "k", (1, 2), None, 2, 1.0, True, "zz", Py("[1]"), 2 ** 70, Py("Num(1)")]
     F = [Py("pyf0"), Py("pyf1"), Py("pyf2"), Py("pyf3"), Py("lambda *a, **k: (a, sorted(k.items()))"), Py("len"), Py("dict"), Py("Callee()"),
-         Py("Callee().meth"), Py("Callee.cm"), Py("Callee.sm"), Py("functools.partial(pyf3, 9, d=8)"), Py("raiser"), Py("int"), Py("c39x.fa3"), Py("c39x.fa2"),
-         Py("c39x.Ext(3)"), Py("c39x.Ext"), Py("c39x.Ext(1).meth"), Py("c39x.Ext.smeth"), Py("str.upper"), Py("[].append"), Py("operator.add"), None, 5]
-    O = [Py("Callee()"), Py("Callee"), Py("c39x.Ext(2)"), Py("c39x.ExtSub(2)"), Py("c39x.PySub(2)"), Py("[]"), Py("'s'"), Py("{}"), 5, 2.5, None,
+         Py("Callee().meth"), Py("Callee.cm"), Py("Callee.sm"), Py("functools.partial(pyf3, 9, d=8)"), Py("raiser"), Py("int"), Py("c39y.fa3"), Py("c39y.fa2"),
+         Py("c39y.Ext(3)"), Py("c39y.Ext"), Py("c39y.Ext(1).meth"), Py("c39y.Ext.smeth"), Py("str.upper"), Py("[].append"), Py("operator.add"), None, 5]
+    O = [Py("Callee()"), Py("Callee"), Py("c39y.Ext(2)"), Py("c39y.ExtSub(2)"), Py("c39y.PySub(2)"), Py("[]"), Py("'s'"), Py("{}"), 5, 2.5, None,
          Py("sys"), Py("NoOps()"), Py("Seq(1)"), Py("type('Slots', (), {'__slots__': ('newattr',)})()")]
-    OO = [Py("Num(1)"), Py("Num(0)"), Py("NoOps()"), Py("c39x.Ext(2)"), Py("c39x.Ext(0)"), 3, 2.5, "s", Py("[1]"), Py("(1,)"), None, Py("Seq(1, 2)"), True, Py("{1}")]
+    OO = [Py("Num(1)"), Py("Num(0)"), Py("NoOps()"), Py("c39y.Ext(2)"), Py("c39y.Ext(0)"), 3, 2.5, "s", Py("[1]"), Py("(1,)"), None, Py("Seq(1, 2)"), True, Py("{1}")]
     IT = [Py("It(0)"), Py("It(2)"), Py("It(3)"), Py("It(5, fail=1)"), Py("It(5, fail=3)"), Py("[1, 2]"), Py("(1, 2, 3)"), Py("'ab'"), Py("{1: 2, 3: 4}"), Py("{1, 2}"),
-          Py("range(2)"), Py("iter([1, 2])"), Py("(x for x in [1, 2])"), Py("c39x.Ext(2)"), Py("c39x.Ext(7)"), Py("Seq(1, 2)"), 5, None, Py("NoOps()"),
-          Py("c39x.ExtIt(2)"), Py("b'ab'"), Py("collections.deque([1, 2])"), Py("dict.fromkeys([1, 2]).items()")]
+          Py("range(2)"), Py("iter([1, 2])"), Py("(x for x in [1, 2])"), Py("c39y.Ext(2)"), Py("c39y.Ext(7)"), Py("Seq(1, 2)"), 5, None, Py("NoOps()"),
+          Py("c39y.ExtIt(2)"), Py("b'ab'"), Py("collections.deque([1, 2])"), Py("dict.fromkeys([1, 2]).items()")]
     WO = "rows"
     NS = [0, 1, -1, 2, 5, -7, 255, 2 ** 15, 2 ** 30 - 1, 2 ** 30, -2 ** 30, 2 ** 31 - 1, -2 ** 31, 2 ** 31, 2 ** 62, 2 ** 63 - 1, -2 ** 63, -2 ** 63 + 1, 2 ** 63, 2 ** 64]
     N = sorted(set(NS) | {3, -3, 7, 2 ** 30 + 1, -(2 ** 30 + 1), 2 ** 53, 2 ** 53 + 1, -(2 ** 53 + 1), 2 ** 60 - 1, 2 ** 60, -2 ** 60, 2 ** 64 + 1, -2 ** 64,
@@ -1169,10 +1190,13 @@ def x_tables(rng, quick):
     EX = [0, 1, 2, 3, 4, 5]
     MO = [0, 1, -5, 2 ** 70, -2 ** 70, 2.5, "abc", b"abc", "x", b"", True, None, [], [7], [1, 2], [1, 2, 3, 4], [5, 6, 5], (1, 2, 3), [1, 3, 5, 7], Py("range(3)"),
           Py("collections.deque([1, 2, 9])"), Py("bytearray(b'ab')"), Py("{'k': 1, 'z': 2}"), Py("{1: 'a', 2: 'b', 3: 'c'}"), Py("{}"), Py("{5: 6}"), Py("D2({'k': 0})"),
-          Py("collections.OrderedDict(k=1)"), Py("Pt(0, 0)"), Py("Pt(2, 2)"), Py("Pt(1, 2)"), Py("c39x.Ext(4)"), Py("c39x.PySub(5)"), Py("Seq(1)"), Py("L2([9])"),
+          Py("collections.OrderedDict(k=1)"), Py("Pt(0, 0)"), Py("Pt(2, 2)"), Py("Pt(1, 2)"), Py("c39y.Ext(4)"), Py("c39y.PySub(5)"), Py("Seq(1)"), Py("L2([9])"),
           Py("T2((1, 2, 3))"), Py("I2(-3)"), Py("F2(1.0)"), Py("S2('abc')"), Py("object()") if False else Py("NoOps()")]
     NB = [x for x in NF if not isinstance(x, str)]        # (no sequence repetition by 2**30)
-    tables = dict(NB=NB, S=S, I=I, C=C, B=B, L=L, LO=LO, IO=IO, D=D, DO=DO, K=K, F=F, O=O, OO=OO, IT=IT, NS=NS, N=N, FL=FL, NF=NF, EX=EX, MO=MO)
+    NUMS = ["0", "1", "-1", "1.5", " 2.25 ", "\t-3e2\n", "inf", "-inf", "nan", "+NaN", "Infinity", "-infinity", "1_000.5", "1__0", "_1", "1e400", "-1e-400",
+            "0x10", "1e", "", " ", "abc", "1 2", "\u0661\u0662.\u0665", "\uff11\uff12", "1\x00", "\xa01.5\xa0", "1.5\u2003", "12345678901234567890123", "0.1" * 3,
+            "9007199254740993", "-0.0", ".5", "5.", "+.5e+1", "0b11", "١٢", "1" * 40 + "." + "5" * 40, "1\x1c", "\x1f2"]
+    tables = dict(NUMS=NUMS, NB=NB, S=S, I=I, C=C, B=B, L=L, LO=LO, IO=IO, D=D, DO=DO, K=K, F=F, O=O, OO=OO, IT=IT, NS=NS, N=N, FL=FL, NF=NF, EX=EX, MO=MO)
     enc = {k: [ev(x) for x in v] for k, v in tables.items()}
     # rows tables
     enc["WO"] = [[ev(a), ev(b), ev(c)] for a in (False, True) for b in (False, True) for c in (False, True)]
@@ -1224,8 +1248,9 @@ def ops_tables(rng, quick):
     fi = _C19.gen_float_int_pairs(rng, True)
     if quick:
         cls = [p for p in fi if p[3].startswith("class")]
-        oth = [p for p in fi if not p[3].startswith("class")]
-        fi = cls[0::4] + cls[1::4] + rng.sample(oth, 900)        # (pairs come as fi, if, fi, if ...)
+        near = [p for p in fi if p[3] in ("near-equal", "float-float")]       # values one ulp / one unit apart: all of them
+        oth = [p for p in fi if not p[3].startswith("class") and p[3] not in ("near-equal", "float-float")]
+        fi = cls[0::4] + cls[1::4] + near + rng.sample(oth, 600)        # (pairs come as fi, if, fi, if ...)
     tables["FI"] = [[ev(a), ev(b), False] for d, a, b, _ in fi if d == "fi"]
     tables["IF"] = [[ev(a), ev(b), False] for d, a, b, _ in fi if d == "if"]
     tables["FF"] = [[ev(a), ev(b), False] for d, a, b, _ in fi if d == "ff"]
